@@ -230,6 +230,17 @@ async fn exec(session: &mut Session<'_>, op: &Op, tok: &str) -> Result<Ret, Stri
             session.sync().await.map_err(|e| format!("SYNC:{}", es(e)))?;
             Ret::Unit
         }
+        Op::SyncFault => {
+            crate::monitor::FAIL_NEXT_UPDATE.with(|f| f.set(true));
+            let r = session.sync().await;
+            let consumed = !crate::monitor::FAIL_NEXT_UPDATE.with(|f| f.replace(false));
+            match (r, consumed) {
+                (Err(_), true) => Ret::Unit,
+                (Ok(()), false) => return Err("SYNCFAULT-NOT-REACHED".into()),
+                (Ok(()), true) => return Err("SYNCFAULT: sync() reported success although the store failed".into()),
+                (Err(e), false) => return Err(format!("SYNC:{}", es(e))),
+            }
+        }
         Op::Delete => {
             session.delete();
             Ret::Unit
@@ -600,6 +611,18 @@ impl<'e> Runner<'e> {
                 }
                 continue;
             }
+            if *op == Op::SyncFault {
+                // Environment fault + explicit sync. Only where the outcome stays pinned: an existing session whose loaded
+                // server state has pending changes and nothing structural (the only store call is the failing `update`).
+                let eligible = rm.had.is_some() && !rm.invalidated && !rm.synced && !rm.cycled && !rm.vanished
+                    && matches!(rm.srv, Srv::Rec(_)) && rm.srv_mutated
+                    && self.store.contains_key(rm.had.as_ref().unwrap());
+                if !eligible {
+                    self.stats.bump("sync_fault_skipped_not_eligible");
+                    continue;
+                }
+                self.stats.bump("sync_fault_performed");
+            }
             if rm.vanished && *op == Op::Sync {
                 // a manual sync over a vanished record (update_ttl/update on an unknown id): unspecified
                 self.stats.cbump("vanish_faults", "unjudged/manual_sync_after_vanish");
@@ -707,6 +730,8 @@ impl<'e> Runner<'e> {
                 }),
                 Op::ForceLoad => Ret::Unit,
                 Op::Sync => Ret::Unit,
+                // the failed sync leaves everything pending
+                Op::SyncFault => Ret::Unit,
                 Op::Delete => {
                     rm.srv = Srv::Deleted;
                     rm.srv_mutated = false;
